@@ -9,6 +9,7 @@ import (
 	"os"
 	"strings"
 
+	"github.com/gdamore/tcell/v2/encoding"
 	"github.com/gdamore/tcell/v2/verifrt"
 
 	_ "verif/harness/common"
@@ -54,6 +55,7 @@ func spawn(name string, fn func()) { verifrt.GoNamed(name, false, fn) }
 
 func main() {
 	w = hc.Start("")
+	encoding.Register() // legacy character sets, incl. the stateful HZ-GB2312 used by C10
 	w.R.Property = *prop
 	var scs []scenario
 	switch *prop {
@@ -63,6 +65,8 @@ func main() {
 		scs = c05Scenarios()
 	case "C10":
 		scs = c10Scenarios()
+	case "C02", "C11":
+		scs = readsScenarios(*prop)
 	}
 	w.R.Rule = rules[*prop]
 	w.R.Assumptions = []string{"scheduling points are the program's synchronisation operations (mutex, channel, select, WaitGroup, Once, timer, blocking tty read); sequentially consistent execution between them", "preemption-bounded: every schedule with at most the stated number of preemptions / early timer firings is executed; select tie-breaks and the order in which blocked threads resume are explored without bound", "tty reads, window size and resize callbacks are owned by the harness; time is virtual"}
@@ -190,6 +194,8 @@ func main() {
 var rules = map[string]string{
 	"C06": "stateless DFS over schedules of the real inputLoop/mainLoop/shutdown code under a controlled scheduler, preemption bound 2 (thorough 3): shutdown op in {Fini, Suspend} x event-queue level x chunks offered x consumer polling or stopped x resize pending x tty read error at the i-th read; Suspend/Resume cycles with input and resize after each Resume; concurrent poster and drawer. A deterministic prologue fills the queues to the stated levels (real capacities 10/10), branching starts when the shutdown caller is spawned. Oracle: the shutdown caller finishes in every execution (no deadlock with it parked); after Fini PollEvent never parks, ChannelEvents channels are closed, inputLoop and mainLoop have exited, a second Fini returns, later Screen calls do not panic; after Suspend+Resume input and resize are delivered again. distinct_nontrivial = distinct (scenario, parameter, observed outcome) classes",
 	"C04": "interleaving part of C04: the shutdown family of C06 (Fini or Suspend x queue levels x pending resize x read errors x concurrent poster/drawer) explored under the controlled scheduler; at the moment the shutdown call returns everything written so far is replayed into the reference terminal, which must be restored (main screen, cursor visible, SGR default, keypad and DEC private modes off, title stack balanced) and nothing may have been written after the tty was stopped",
+	"C02": "interleaving part of C02: one key/escape-sequence stream delivered through Tty.Read in 5 partitions (sequences split inside and between reads) while the application is not polling, so that several reads are in flight between inputLoop, the key channel and mainLoop; stateless DFS over schedules, preemption bound 2 (thorough 3); the delivered key events must be those of the stream delivered in one read, in order (executions in which the virtual escape timer fired inside a split sequence are not judged)",
+	"C11": "interleaving part of C11: one UTF-8 text stream (1-, 2- and 3-byte characters) delivered through Tty.Read in 4 partitions (characters split across reads) while the application is not polling; stateless DFS over schedules, preemption bound 2 (thorough 3); the delivered runes must be the typed text in order",
 	"C05": "stateless DFS over schedules (preemption bound 2, thorough 3) of a feeder thread injecting sequence-numbered key chunks, a resize notifier, two posters (PostEvent of numbered interrupts, recording the return value), and a consumer (PollEvent, or ChannelEvents with quit), with the real inputLoop/mainLoop; slow-consumer variants start the consumer only after both queues are full (deterministic prologue). Oracle at quiescence: input-derived key events are exactly the injected sequence in order; each poster's delivered events are in posting order; PostEvent returned nil iff its event was delivered exactly once; HasPendingEvent true implies the next PollEvent does not park; ChannelEvents forwards an in-order subsequence and closes its channel; When() lies between the cause's arrival and delivery (virtual clock). distinct_nontrivial = distinct (scenario, parameter, delivered event order) outcomes",
-	"C10": "every unordered pair of Screen methods from the API alphabet run on two threads against a live terminfo screen (with input traffic and a resize notification) and, for SimulationScreen, its own alphabet; every schedule with at most 1 preemption (thorough 2) is executed in a -race build whose scheduler hand-offs are hidden from ThreadSanitizer (runtime.RaceDisable), so each schedule is also checked by the happens-before race detector; race reports are keyed by the pair of tcell functions at the two access sites. Also checked: no runtime fault or panic, and every Show() reaches the tty as one contiguous, well-formed block. distinct_nontrivial = distinct (pair, outcome) classes",
+	"C10": "every unordered pair of Screen methods from the API alphabet run on two threads against a live terminfo screen (with input traffic and a resize notification; UTF-8 locale, and - for pairs with a drawing or charset-dependent call - a locale whose encoder is stateful, HZ-GB2312) and, for SimulationScreen, its own alphabet; every schedule with at most 1 preemption (thorough 2) is executed in a -race build whose scheduler hand-offs are hidden from ThreadSanitizer (runtime.RaceDisable), so each schedule is also checked by the happens-before race detector; race reports are keyed by the pair of tcell functions at the two access sites. Also checked: no runtime fault or panic, and every Show() reaches the tty as one contiguous, well-formed block. distinct_nontrivial = distinct (pair, outcome) classes",
 }
